@@ -34,7 +34,7 @@
      FixHttpTurnError        an HTTP producer turn whose process() step raised reports the exception at dispatch end
                              (as found: the turn writes the error into the response body and ends with error = None)
      FixHttpErrorUnwrapped   HTTP /init and exchange-turn failures report the exception the method raised
-                             (as found: the transport's internal _RpcHttpError wrapper, whose str() is empty)       *)
+                             (as found: the transport's internal _RpcHttpError wrapper: telemetry records that type name) *)
 EXTENDS Naturals, Sequences, FiniteSets, TLC
 
 CONSTANTS MaxCalls, MaxTicks, MaxHooks, Behaviours, Transports, VerMismatch, FullPairs, PairHooks,
